@@ -13,6 +13,53 @@ def register(db):
                       "(script: src; stylesheet: href; meta: name and content); a single item is stored as [item]; nothing is raised for well-formed definitions")
     c.harness = init_harness
     db.add(c)
+    c2 = Contract(name=CORE + "HTMLDependency._validate_dicts#loops", params=[("self", "Any")], returns="Any", props=["C10"],
+                  note="`for d in ld: self._validate_dict(d, req_attr)` validates every item independently (DESIGN 3.4, independent iterations; the only call is the "
+                       "validation of that one item): with it the per-item obligations of the constructor harness hold for item lists of every length")
+    c2.harness, c2.pure = validate_loops_harness, True
+    db.add(c2)
+
+
+def validate_loops_harness(I, c):
+    from ..symexec import Obligation
+    from .paths import independent_iteration_findings
+    import ast
+    qual = c.name.split("#")[0]
+    short = qual.replace("htmltools.", "")
+    fn = I.src.find(qual)
+    obs = []
+    found = independent_iteration_findings(fn, extra_calls=("self._validate_dict",))
+    body = [b for b in fn.body if not (isinstance(b, ast.Expr) and isinstance(b.value, ast.Constant))]
+    whole = len(body) == 1 and isinstance(body[0], ast.For) and len(found) == 1
+    obs.append(Obligation(f"G:{short}:body-is-one-loop", [], z3.BoolVal(bool(whole)), qual, "G", "the function is exactly one loop over its argument"))
+    for k, bad in sorted(found.items()):
+        lp = [n for n in ast.walk(fn) if isinstance(n, ast.For)][k] if whole else None
+        if lp is not None:
+            st = lp.body[0] if len(lp.body) == 1 else None
+            ok_call = False
+            if isinstance(st, ast.Expr) and isinstance(st.value, ast.Call) and ast.unparse(st.value.func) == "self._validate_dict" and isinstance(lp.iter, ast.Name) \
+                    and lp.iter.id == fn.args.args[1].arg:
+                # arguments bound positionally or by the callee's parameter names
+                try:
+                    callee = I.src.find(qual.rsplit(".", 1)[0] + "._validate_dict")
+                    pn = [a.arg for a in callee.args.args][1:]
+                except Exception:
+                    pn = []
+                bound = dict(zip(pn, st.value.args))
+                dup = False
+                for kw_ in st.value.keywords:
+                    if kw_.arg is None or kw_.arg in bound or kw_.arg not in pn:
+                        dup = True
+                    else:
+                        bound[kw_.arg] = kw_.value
+                ok_call = (not dup and len(pn) == 2 and set(bound) == set(pn) and len(st.value.args) <= 2
+                           and isinstance(bound[pn[0]], ast.Name) and bound[pn[0]].id == lp.target.id
+                           and isinstance(bound[pn[1]], ast.Name) and bound[pn[1]].id == fn.args.args[2].arg)
+            if not ok_call:
+                bad = bad + ["the body is not the single statement `self._validate_dict(<item>, <required keys>)` over the first argument"]
+        obs.append(Obligation(f"G:{short}:loop{k}.independent-iterations", [], z3.BoolVal(not bad), f"{qual} loop {k}", "G",
+                              "every item is validated, each on its own, with the required keys passed through: " + ("holds" if not bad else "; ".join(bad[:4]))))
+    return obs
 
 
 def init_harness(I, c):
